@@ -97,6 +97,12 @@ inductive Prog (P L R : Type) where
 
 abbrev Outcome (R : Type) := Except Err R
 
+instance decEqOutcome [DecidableEq R] : DecidableEq (Except Err R)
+  | .ok a, .ok b => if h : a = b then isTrue (by rw [h]) else isFalse (by intro e; cases e; exact h rfl)
+  | .error a, .error b => if h : a = b then isTrue (by rw [h]) else isFalse (by intro e; cases e; exact h rfl)
+  | .ok _, .error _ => isFalse (by intro e; cases e)
+  | .error _, .ok _ => isFalse (by intro e; cases e)
+
 /-- a finished program's outcome -/
 def Prog.outcome : Prog P L R → Option (Outcome R)
   | .done r => some (.ok r)
